@@ -67,6 +67,10 @@ func newAPI4(s *Sim, conn net.PacketConn) *api4 {
 	case 3:
 		opts = append(opts, nclient4.WithLogger(readingLogger4{}))
 	}
+	if s.cfg.Raw {
+		// the stack nclient4.New builds: the client on its raw-socket layer, bound to the client port
+		conn = nclient4.NewBroadcastUDPConn(&rawAdapter{f: conn.(*fakeConn), n: uint32(s.rng.Int63())}, &net.UDPAddr{Port: 68})
+	}
 	c, err := nclient4.NewWithConn(conn, mac, opts...)
 	if err != nil {
 		panic(err)
